@@ -75,6 +75,9 @@ def running_average(ctx):
                       [(4097, 4), (5000, 7), (9000, 24), (4096, 2), (12000, 10), (20000, 25), (6000, 1), (8193, 16)]):
         cases.append(('long-dyadic', gen.dyadic_record(rng, n_long), w, False))
     # LONG records with a huge dynamic range inside (one sample of 1e17 among samples of order one): a running sum may not be used
+    # source hints: record lengths and window widths around every new integer constant of the anchored files
+    for n_long, w in [(m, 4) for m in gen.hint_sizes(ctx, lo=301, hi=60000, cap=4)] + [(1200, m) for m in gen.hint_sizes(ctx, lo=2, hi=400, cap=4)]:
+        cases.append(('long-dyadic', gen.dyadic_record(rng, n_long), w, False))
     for n_long, w in ([(30000, 1), (21000, 4)] if ctx.tier == 'quick' else [(30000, 1), (21000, 4), (50000, 3), (25000, 10)]):
         v = gen.dyadic_record(rng, n_long)
         v[rng.choice([0, 1, n_long // 2])] = 1e17
@@ -239,6 +242,15 @@ def butter_errors(ctx):
 
 # ------------------------------------------------------------------------------ butter_pass: linearity, zero phase and gain
 
+_HV = []      # source hints (filled by butter_real): values at / around the new float constants of the anchored files; empty on the unchanged tree
+
+
+def _hv_corners(dt, lo, hi):
+    """corner frequencies that put f [Hz], f/nyquist or f*dt at a hinted value, inside [lo, hi] x nyquist"""
+    nyq = 0.5 / dt
+    return [x for c in _HV for x in (c, c * nyq, c / dt) if lo * nyq <= x <= hi * nyq]
+
+
 def filt_setup(rng, dt):
     nyq = 0.5 / dt
     ftype = rng.choice(['low', 'high', 'band'])
@@ -250,6 +262,8 @@ def filt_setup(rng, dt):
         flow = f1
     else:
         fc = rng.uniform(0.04, 0.6) * nyq
+        if _HV and _hv_corners(dt, 0.01, 0.9) and rng.random() < 0.4:
+            fc = rng.choice(_hv_corners(dt, 0.01, 0.9))
         cut = [None, fc] if ftype == 'low' else [fc, None]
         probes = [min(fc * r, 0.9 * nyq) for r in (0.2, 0.5, 0.8, 1.0, 1.25, 2.0, 3.0)]
         flow = fc
@@ -260,6 +274,7 @@ def butter_real(ctx):
     import eqsig
     from scipy.signal import butter, freqz
     rng = ctx.rng
+    _HV[:] = gen.hint_values(ctx, 1e-6, 1e4, cap=24, maps=(lambda c: c, lambda c: 1 / c))
     # ---- F17-1 witness: ndarray cut-offs
     t = np.arange(4000) * 0.01
     x = np.sin(2 * math.pi * 2.0 * t)
@@ -294,6 +309,8 @@ def butter_real(ctx):
         ftype = rng.choice(['high', 'low'])
         order = rng.choice([1, 2, 4])
         f0 = rng.choice([0.0098, 0.05, 1.0]) if ftype == 'high' else rng.choice([5.0, 20.0]) * (0.01 / dtn) * 0.5
+        if _HV and _hv_corners(dtn, 2e-5, 0.95) and rng.random() < 0.6:
+            f0 = rng.choice(_hv_corners(dtn, 2e-5, 0.95))
         rel = rng.choice([1e-7, 1e-5, 1e-3, 4e-2])
         for fc in (f0, f0 * (1 + rel), f0):
             co = [fc, None] if ftype == 'high' else [None, fc]
@@ -314,7 +331,8 @@ def butter_real(ctx):
     n_cases = 200 if ctx.tier == 'quick' else 1500
     prev = None
     for i in range(n_cases):
-        dt = rng.choice([0.01, 0.005, 0.02, 0.03, 0.015, 0.04, 0.0125])      # also steps whose reciprocal is not an integer
+        # also steps whose reciprocal is not an integer (+ source hints: dt and 1/dt at / around every new float constant)
+        dt = rng.choice([0.01, 0.005, 0.02, 0.03, 0.015, 0.04, 0.0125] + [c for c in _HV if 0.002 <= c <= 0.05][:8])
         ftype, cut, probes, flow = filt_setup(rng, dt)
         order = 1 + i % 4
         if prev is not None and rng.random() < 0.4:
@@ -675,7 +693,8 @@ def _x2_large(ctx, cur):
     from scipy.signal import butter, freqz
     from _hxb_common import same, close, light_history
     rng = ctx.rng
-    for n in ([rng.choice([20000, 32768, 32769]), rng.choice([50000, 65536, 70001])] if ctx.tier == 'quick' else [20000, 32768, 32769, 50000, 65536, 65537, 100000, 131072]):
+    for n in ([rng.choice([20000, 32768, 32769]), rng.choice([50000, 65536, 70001])] if ctx.tier == 'quick' else [20000, 32768, 32769, 50000, 65536, 65537, 100000, 131072]) + \
+            gen.hint_sizes(ctx, lo=501, hi=400000, cap=5):          # source hints: record lengths around every new integer constant
         seed = rng.randrange(2 ** 31)
         g = np.random.default_rng(seed)
         dt = rng.choice([0.01, 0.005, 0.02])
@@ -718,7 +737,9 @@ def _x2_large(ctx, cur):
             ctx.oracle('C17.a (large) butter_pass preserves length and time step', r[0] == 'ok' and np.shape(sg.values) == (n,) and sg.dt == dt, desc, detail=r if r[0] != 'ok' else None)
         if all(o is not None and o.shape == (n,) for o in outs):
             scale = max(float(np.max(np.abs(outs[0]))), float(np.max(np.abs(outs[1]))), 1e-300)
-            ctx.oracle('C17.b (large) butter_pass is linear in the record (1e-9)', float(np.max(np.abs(outs[2] - (2.0 * outs[0] - 3.0 * outs[1])))) <= 1e-9 * 5 * scale, desc)
+            # budget 1e-7: the transfer-function (b, a) form of an 8-pole band-pass with low corners is ill-conditioned — measured on the unchanged
+            # library 4e-9 ... 6e-9 for order 4 on 32768 samples (DESIGN §10); a non-linearity worth the name is orders of magnitude larger
+            ctx.oracle('C17.b (large) butter_pass is linear in the record (1e-7)', float(np.max(np.abs(outs[2] - (2.0 * outs[0] - 3.0 * outs[1])))) <= 1e-7 * 5 * scale, desc)
             with np.errstate(all='ignore'):
                 kk = rng.choice([600, -600])
                 sg = eqsig.Signal(v * 2.0 ** kk, dt)
